@@ -27,7 +27,7 @@ func main() {
 	flag.Parse()
 	env := append(os.Environ(), "GOFLAGS=", "GOWORK=off", "GOPROXY=off", "GOSUMDB=off", "GOTOOLCHAIN=local")
 	cfg := &packages.Config{Mode: packages.NeedName | packages.NeedFiles | packages.NeedCompiledGoFiles | packages.NeedSyntax |
-		packages.NeedTypes | packages.NeedTypesInfo | packages.NeedImports, Dir: *repo, Env: env, BuildFlags: []string{"-mod=readonly"}}
+		packages.NeedTypes | packages.NeedTypesInfo | packages.NeedImports, Dir: *repo, Env: env, BuildFlags: []string{"-mod=readonly", "-trimpath"}}
 	pkgs, err := packages.Load(cfg, "./...")
 	if err != nil {
 		fmt.Println(err)
